@@ -9,7 +9,7 @@ Definition csafe (p : prog) (c : conn) : Prop :=
   match st c with
   | Reading _ => no_write (rest c) = true
   | Def0 => war_free (rest c) = true
-  | Writing => True
+  | Writing _ => True
   | Idle => False
   end.
 
